@@ -410,8 +410,12 @@ var (
 )
 
 // c17RaceAccessFrames returns, for each access of a race report, the innermost
-// frame outside the runtime, and whether any access stack contains a harness
-// frame.
+// frame outside the runtime, and whether the CALLER of the fsnotify code on any
+// access stack is harness code. Only the frames from the access outwards up
+// to the first frame that is neither runtime nor fsnotify are looked at: the
+// race runtime (history_size=3) pads deep stacks with stale frames of earlier
+// calls of the same goroutine (decoder frames "below" watchLoop, including a
+// harness decoder), which say nothing about the access.
 func c17RaceAccessFrames(blk string) (inner []string, harness bool) {
 	locs := c17RaceSection.FindAllStringIndex(blk, -1)
 	for i, loc := range locs {
@@ -426,12 +430,20 @@ func c17RaceAccessFrames(blk string) (inner []string, harness bool) {
 		first := ""
 		for _, m := range c17RaceFrame.FindAllStringSubmatch(sec, -1) {
 			fn := m[1]
+			if strings.HasPrefix(fn, "runtime.") {
+				continue
+			}
+			if first == "" {
+				first = fn
+			}
+			if strings.HasPrefix(fn, "github.com/fsnotify/fsnotify.") {
+				continue
+			}
+			// the caller of the fsnotify frames
 			if strings.HasPrefix(fn, "verifharness/") {
 				harness = true
 			}
-			if first == "" && !strings.HasPrefix(fn, "runtime.") {
-				first = fn
-			}
+			break
 		}
 		inner = append(inner, first)
 	}
@@ -443,8 +455,8 @@ func c17RaceAccessFrames(blk string) (inner []string, harness bool) {
 // report without a dials frame there a harness bug. fsnotify v1.8.0 has a
 // race of its own (readEvents reads watches.path without the mutex when it
 // handles IN_DELETE_SELF, while Watcher.Add/Remove - called by watchLoop -
-// write it): both innermost frames are fsnotify's, no harness frame is on
-// either access stack. Those reports are neither a harness bug nor a
+// write it): both innermost frames are fsnotify's and the caller of the
+// fsnotify code is not harness code on either access stack. Those reports are neither a harness bug nor a
 // violation of C17's statement; they are moved out of the race log into the
 // evidence (counter, frame set, first report as a note). Every other report
 // stays in the log for the framework to judge.
